@@ -86,18 +86,18 @@ class Panic:
                 if t["k"] == "assert":
                     ok, why = self.discharge_assert(fv, t)
                     self.edges.append({"fn": f, "kind": "assert:" + t["msg"] + (":" + t.get("op", "") if t.get("op") else ""), "detail": self.assert_detail(fv, t),
-                                       "loc": fv.loc(t["line"]), "ok": ok, "why": why})
+                                       "loc": fv.loc(t["line"]), "line": t["line"], "ok": ok, "why": why})
                 elif t["k"] == "call":
                     n = cname(t)
                     if t.get("target") is None and not re.search(r"core::panicking::|core::slice::index::slice_|core::option::(unwrap|expect)_failed|core::result::unwrap_failed", n):
                         # diverging call to something else (e.g. process::abort) - report
-                        self.edges.append({"fn": f, "kind": "diverge", "detail": short_callee(n), "loc": fv.loc(t["line"]), "ok": False, "why": ""})
+                        self.edges.append({"fn": f, "kind": "diverge", "detail": short_callee(n), "loc": fv.loc(t["line"]), "line": t["line"], "ok": False, "why": ""})
                         continue
                     if PANIC_CALL.search(n) or PANIC_CALL.search(t.get("callee_full") or ""):
                         if lookup_callee(F, t) is not None:
                             continue  # local Index impls etc. are analysed as reached functions
                         ok, why = self.discharge_call(fv, t, n)
-                        self.edges.append({"fn": f, "kind": "call:" + short_callee(n), "detail": self.call_detail(fv, t), "loc": fv.loc(t["line"]), "ok": ok, "why": why})
+                        self.edges.append({"fn": f, "kind": "call:" + short_callee(n), "detail": self.call_detail(fv, t), "loc": fv.loc(t["line"]), "line": t["line"], "ok": ok, "why": why})
 
     # ------------------------------------------------------------------ details (stable, no line numbers)
     def assert_detail(self, fv, t):
